@@ -25,6 +25,17 @@ structure View2 where
   s1 : Int
   deriving Repr
 
+/-- a collection of equal-length multivariate series as one 3-D array: `n` series × `len` points × `d` values -/
+structure View3 where
+  base : Int
+  n : Nat
+  len : Nat
+  d : Nat
+  s0 : Int
+  s1 : Int
+  s2 : Int
+  deriving Repr
+
 section
 variable {α : Type}
 
@@ -35,6 +46,21 @@ def View1.kernel (mem : Int → α) (v : View1) (i : Nat) : α := mem (v.base + 
 
 def View2.get (mem : Int → α) (v : View2) (i k : Nat) : α := mem (v.base + i * v.s0 + k * v.s1)
 def View2.kernel (mem : Int → α) (v : View2) (i k : Nat) : α := mem (v.base + (i * v.d + k : Nat))
+
+def View3.get (mem : Int → α) (v : View3) (i j k : Nat) : α := mem (v.base + i * v.s0 + j * v.s1 + k * v.s2)
+/-- what the matrix routines read: series `i` starts at `i * len * d`, point `j` at `j * d` -/
+def View3.kernel (mem : Int → α) (v : View3) (i j k : Nat) : α := mem (v.base + ((i * v.len + j) * v.d + k : Nat))
+
+def View3.cContig (v : View3) : Bool :=
+  (decide (v.d ≤ 1) || decide (v.s2 = 1)) && (decide (v.len ≤ 1) || decide (v.s1 = v.d)) &&
+  (decide (v.n ≤ 1) || decide (v.s0 = v.len * v.d))
+
+def View3.copyC (mem : Int → α) (v : View3) : (Int → α) × View3 :=
+  (fun a => v.get mem (a.toNat / (v.len * v.d)) (a.toNat % (v.len * v.d) / v.d) (a.toNat % v.d),
+   { base := 0, n := v.n, len := v.len, d := v.d, s0 := v.len * v.d, s1 := v.d, s2 := 1 })
+
+def View3.prepare (mem : Int → α) (v : View3) : (Int → α) × View3 :=
+  if v.cContig then (mem, v) else v.copyC mem
 
 /-- NumPy's contiguity flags (dimensions of extent ≤ 1 do not constrain the strides) -/
 def View1.flag (_ : ContigFlag) (v : View1) : Bool := decide (v.n ≤ 1) || decide (v.stride = 1)
